@@ -62,7 +62,7 @@ def run_seed(prop, seed, tier, profile=None, overrides=None):
                 break
     elif prop == "C15":
         a, b, sids = twins.c15_twins(cfg_json, rr.recipes, client=0)
-        v, sid = twins.compare_traces(a, b, ["C15"], "interleaving-twin", a.world, client=0, align=sids, same_layout=True)
+        v, sid = twins.compare_traces(a, b, ["C15"], "interleaving-twin", a.world, client=0, align=sids)  # not same_layout: the others may toggle the global contraction flag
         twin_steps += len(sids)
         if v is not None:
             v.sid = sid
@@ -306,7 +306,7 @@ def run_recipes_for_prop(prop, cfg, recipes, twin=None):
             out.append(vj)
     elif prop == "C15":
         a, b, sids = twins.c15_twins(cfg, recipes, client=0)
-        v, sid = twins.compare_traces(a, b, ["C15"], "interleaving-twin", a.world, client=0, align=sids, same_layout=True)
+        v, sid = twins.compare_traces(a, b, ["C15"], "interleaving-twin", a.world, client=0, align=sids)  # not same_layout: the others may toggle the global contraction flag
         if v is not None:
             v.sid = sid
             vj = v.to_json()
